@@ -177,6 +177,20 @@ func driveOnce(plan []M, out *Out, _ []string) {
 			time.Sleep(time.Millisecond)
 		}
 		log(M{"ev": "info", "what": "parked", "n": parked, "want": want})
+		if boolean(sc, "other") && before+during > 0 {
+			// while the action is still held at its gate and the other callers wait: OTHER Once values run to completion
+			// (whatever the waiting callers share with them must not release them); then give a released waiter time to show up
+			var p1 sync2.Once1[int]
+			var p2 sync2.Once2[int, int]
+			var p3 sync2.Once3[int, int, int]
+			for i := 0; i < 3; i++ {
+				p1.Do(func() int { return 1 })
+				p2.Do(func() (int, int) { return 1, 2 })
+				p3.Do(func() (int, int, int) { return 1, 2, 3 })
+				p1, p2, p3 = sync2.Once1[int]{}, sync2.Once2[int, int]{}, sync2.Once3[int, int, int]{}
+			}
+			time.Sleep(20 * time.Millisecond)
+		}
 		close(gate)
 		wg.Wait()
 		if after > 0 {
